@@ -296,7 +296,7 @@ def p_stmt(st, nroots):
         body = "%s = (%s); t__ [%d, %s]" % (st["dst"], text, st["id"], st["dst"])
     else:
         body = "%s; t__ [%d, %s]" % (text, st["id"], first)
-    return "try { %s } catch { t__ [%d, \"E\"] }; heap__ [%d, %d, %s];" % (body, st["id"], st["id"], nroots, ", ".join(ALL_LOCALS))
+    return "{ %s } except__ { t__ [%d, \"E\"] }; heap__ [%d, %d, %s];" % (body, st["id"], st["id"], nroots, ", ".join(ALL_LOCALS))
 
 
 def client_text(stmts, nroots):
@@ -401,8 +401,11 @@ def model_op(heap, op, vals, at, st):
             k, v = b.items
             if k is None:
                 raise Unspec("nil key")
-            if reaches(k, a) or reaches(v, a):
+            if reaches(v, a):
                 return NORES, "cycle-refused"
+            if reaches(k, a):
+                # keys are captured by value: storing a snapshot and refusing both keep the hashmap free of itself
+                raise Unspec("hashmap used inside its own key")
             ck = canon(k)
             if ck in a.ent:
                 a.ent[ck][1] = v
@@ -500,14 +503,22 @@ def model_op(heap, op, vals, at, st):
                 if isinstance(e[1], (Arr, HM)):
                     heap.shared_hms.append(e[1]) if isinstance(e[1], HM) else heap.shared_arrs.append(e[1])
             return h, "ok"
+        if is_num(a):
+            return float(a), "ok-scalar"
         if not isinstance(a, Arr):
             return NORES, "type"
         return deep_copy_arrays(heap, a, heap.shared_hms), "ok"
     if op == "plus":
+        if is_num(a) and is_num(b):
+            return float(a) + float(b), "ok-scalar"
+        if isinstance(a, str) and isinstance(b, str):
+            return a + b, "ok-scalar"
         if not isinstance(a, Arr) or not isinstance(b, Arr):
             return NORES, "type"
         return heap.arr(list(a.items) + list(b.items)), "ok"
     if op == "minus":
+        if is_num(a) and is_num(b):
+            return float(a) - float(b), "ok-scalar"
         if not isinstance(a, Arr) or not isinstance(b, Arr):
             return NORES, "type"
         out = []
@@ -543,7 +554,7 @@ def model_op(heap, op, vals, at, st):
             return NORES, "type"
         if st.get("mutating_body"):
             raise Unspec("iteration over an array that the body changes")
-        return ("iter", a, list(a.items), len(a.items)), "ok"
+        return ("iter", a, list(a.items), len(a.items)), "iterated"
     # ---------------- reads
     if op == "count":
         if isinstance(a, Arr):
@@ -591,13 +602,15 @@ def model_op(heap, op, vals, at, st):
     if op == "keys":
         if not isinstance(a, HM):
             return NORES, "type"
-        return ("multiset", [e[0] for e in a.ent.values()]), "ok"
+        return ("multiset", [snapshot(heap, e[0]) for e in a.ent.values()]), "ok"
     if op == "fromArray":
         if not isinstance(a, Arr):
             return NORES, "type"
         h = heap.hm()
+        malformed = False
         for it in a.items:
             if not isinstance(it, Arr) or len(it.items) != 2:
+                malformed = True
                 continue       # reported, skipped
             k, v = it.items
             if k is None:
@@ -607,7 +620,7 @@ def model_op(heap, op, vals, at, st):
                 h.ent[ck][1] = v
             else:
                 h.ent[ck] = [snapshot(heap, k), v]
-        return h, "ok"
+        return h, "malformed-pair-skipped" if malformed else "ok"
     raise ValueError(op)
 
 
@@ -616,8 +629,8 @@ def model_op(heap, op, vals, at, st):
 # ---------------------------------------------------------------------------------------------
 SCALARS = [["n", 0], ["n", 1], ["n", 2], ["n", 3], ["n", -1], ["n", 1.5], ["n", 7]]
 STRINGS = [["s", "a"], ["s", "A"], ["s", "b"], ["s", ""], ["s", "ab"]]
-CODES = [["c", "{}"], ["c", "{1}"], ["c", "{_x}"], ["c", "{1 + 1}"]]
-NEG_ZERO = ["arr", [["n", 0]]]
+CODES = [["c", "{}"], ["c", "{1}"], ["c", "{2}"], ["c", "{_x}"], ["c", "{1 + 1}"]]
+NEG_ZERO = ["n", -0.0]
 
 
 def lit_scalar(rng):
@@ -643,7 +656,7 @@ def lit_value(rng, depth=0, refs=()):
 def key_expr(rng, refs):
     r = rng.random()
     if r < 0.35:
-        return rng.choice([["n", 0], ["n", 1], ["n", 2], ["s", "a"], ["s", "A"], ["s", "b"], ["b", True]])
+        return rng.choice([["n", 0], NEG_ZERO, ["n", 1], ["n", 2], ["s", "a"], ["s", "A"], ["s", "b"], ["b", True]])
     if r < 0.6:
         return rng.choice([["arr", [["n", 1]]], ["arr", [["n", 1], ["n", 2]]], ["arr", [["s", "a"]]], ["arr", [["s", "A"]]],
                            ["arr", [["arr", [["n", 1]]], ["arr", [["n", 2]]]]], ["arr", []]])
@@ -754,7 +767,7 @@ def gen_stmt(rng, sid, kinds, lk, mix):
             v = h
         elif r < 0.2:
             v = ["arr", [h]]
-        elif r < 0.25:
+        elif r < 0.22:
             v = ["n", 1]
             k = ["arr", [h]]
         else:
@@ -825,6 +838,8 @@ def gen_stmt(rng, sid, kinds, lk, mix):
         lk[st["dst"]] = "?"
     elif op == "keys":
         st["args"] = [H()]
+        if rng.random() < 0.5:
+            st["dst"] = rng.choice(ARRAY_LOCALS)
     elif op == "fromArray":
         ents = []
         for _ in range(rng.randint(0, 4)):
@@ -842,7 +857,7 @@ def gen_laws(rng):
     pool = [["n", 0], NEG_ZERO, ["n", 1], ["n", 1.5], ["n", 10000000000.0], ["s", "a"], ["s", "A"], ["s", ""], ["s", "aB"], ["s", "Ab"], ["b", True], ["b", False],
             ["arr", []], ["arr", [["n", 1]]], ["arr", [["n", 1], ["n", 2]]], ["arr", [["arr", [["n", 1]]], ["arr", [["n", 2]]]]], ["arr", [["s", "a"]]], ["arr", [["s", "A"]]],
             ["arr", [["n", 1], ["s", "a"], ["b", True]]], ["arr", [["arr", []]]], ["arr", [["n", 0]]],
-            ["c", "{}"], ["c", "{1}"], ["c", "{1 + 1}"], ["c", "{_x}"],
+            ["c", "{}"], ["c", "{1}"], ["c", "{2}"], ["c", "{1 + 1}"], ["c", "{_x}"], ["arr", [NEG_ZERO]], ["arr", [["c", "{1}"]]], ["arr", [["c", "{2}"]]],
             ["hm", []], ["hm", [[["n", 1], ["n", 2]]]], ["hm", [[["s", "a"], ["n", 1]], [["s", "b"], ["n", 2]]]], ["hm", [[["s", "b"], ["n", 2]], [["s", "a"], ["n", 1]]]],
             ["hm", [[["s", "a"], ["n", 1]], [["s", "b"], ["n", 2]], [["s", "c"], ["n", 3]], [["s", "d"], ["n", 4]]]],
             ["hm", [[["s", "d"], ["n", 4]], [["s", "c"], ["n", 3]], [["s", "b"], ["n", 2]], [["s", "a"], ["n", 1]]]],
@@ -953,6 +968,7 @@ def judge(case, hs):
         envs[c] = {"_a0": heap.arr([]), "_a1": heap.arr([]), "_h0": heap.hm(), "_t0": 0.0, "_t1": 0.0}
     pending = {}        # statement id -> (result, note, op event index)
     last_ops = []
+    since_good = []     # operations applied since the last dump that agreed
     nchecks = 0
     for idx, e in enumerate(ev):
         if heap.fuzzy:
@@ -972,6 +988,7 @@ def judge(case, hs):
                 break
             pending[sid] = (res, note, idx)
             last_ops.append("%s:%s" % (st["op"], note))
+            since_good.append((sid, "%s:%s" % (st["op"], note)))
             # the result, rendered by the VM at the very instruction
             if res is not NORES and not (isinstance(res, tuple) and res and res[0] in ("iter",)) and not st.get("dst"):
                 sut = sqfval.parse(e[5])
@@ -1004,16 +1021,40 @@ def judge(case, hs):
                 if expect_exec:
                     V.append(Violation("result", "not-executed:%s" % st["op"], "statement %d `%s` never executed its operator" % (sid, stmt_text(st))))
                     break
-                if st.get("dst"):
-                    envs[c][st["dst"]] = UNKNOWN
+                if st.get("dst") and not err:
+                    envs[c][st["dst"]] = UNKNOWN      # (after an error the assignment was never reached: the binding stays)
                 continue
             res, note, opidx = pending.pop(sid)
-            if err and note in ("ok", "ok-grow", "ok-container-key", "present", "absent"):
+            if err and note in ("ok", "ok-grow", "ok-container-key", "ok-scalar", "present", "absent"):
                 V.append(Violation("result", "unexpected-error:%s:%s" % (st["op"], note), "statement %d `%s` raised an error although the operation is valid" % (sid, stmt_text(st))))
                 break
             if st.get("dst"):
                 if err or res is NORES:
                     envs[c][st["dst"]] = UNKNOWN if not err else envs[c][st["dst"]]
+                elif isinstance(res, tuple) and res[0] == "multiset":
+                    # the order of keys is the VM's business: take it from the VM's rendering of the fresh array
+                    sut_items = p[1] if len(p) > 1 and isinstance(p[1], list) else None
+                    pool = list(res[1])
+                    out = []
+                    ok = sut_items is not None and len(sut_items) == len(pool)
+                    if ok:
+                        for it in sut_items:
+                            hit = None
+                            for ci, cand in enumerate(pool):
+                                try:
+                                    if norm(struct(cand, 1)) == norm(it):
+                                        hit = ci
+                                        break
+                                except Unspec:
+                                    pass
+                            if hit is None:
+                                ok = False
+                                break
+                            out.append(pool.pop(hit))
+                    if not ok:
+                        V.append(Violation("result", "result:keys:%s" % note, "statement %d `%s` returned %s, the reference heap holds the keys %s" % (sid, stmt_text(st), json.dumps(jsonable(sut_items))[:200], show(res))))
+                        break
+                    envs[c][st["dst"]] = heap.arr(out)
                 elif isinstance(res, tuple) and res[0] == "iter":
                     arr, items, size = res[1], res[2], res[3]
                     if arr.mut > opidx:
@@ -1054,9 +1095,16 @@ def judge(case, hs):
                             break
                     except Unspec:
                         pass
+            if not bad:
+                since_good = []
             if bad:
                 cyc = has_deep(bad[1]) if not isinstance(bad[1], str) else False
-                what = last_ops[-1] if last_ops else "setup"
+                # blame: a refused insertion if one happened, else the dump's own statement, else the first operation since the last agreeing dump
+                what = "setup"
+                if since_good:
+                    refused = [w for i, w in since_good if w.endswith("cycle-refused")]
+                    own = [w for i, w in since_good if isinstance(p[0], (int, float)) and i == int(p[0])]
+                    what = (refused if (refused and cyc) else own or [since_good[0][1]])[0]
                 key = ("cycle-created:%s" % what) if cyc else ("state:%s" % what)
                 V.append(Violation("state", key, "after statement %s (%s) the heap differs at %s: VM %s, reference heap %s; recent operations %s" % (
                     p[0], stmt_text(stmts[int(p[0])]) if isinstance(p[0], (int, float)) and int(p[0]) in stmts else "-", bad[0], json.dumps(bad[1])[:300], show(bad[2]), last_ops[-4:])))
@@ -1078,6 +1126,8 @@ def operator_defined(op, vals):
     b = vals[1] if len(vals) > 1 else None
     if op in ("pushBack", "pushBackUnique", "find"):
         return isinstance(a, Arr)
+    if op in ("plus", "minus") and is_num(a) and is_num(b):
+        return True
     if op == "append" or op in ("plus", "minus"):
         return isinstance(a, Arr) and isinstance(b, Arr)
     if op == "set":
@@ -1093,7 +1143,7 @@ def operator_defined(op, vals):
     if op == "sort":
         return isinstance(a, Arr) and isinstance(b, bool)
     if op == "copy":
-        return isinstance(a, (Arr, HM))
+        return isinstance(a, (Arr, HM)) or is_num(a)
     if op in ("apply", "filter"):
         return isinstance(a, Arr)
     if op == "count":
